@@ -6,6 +6,7 @@ identities (a-b) == -(b-a), b+(a-b) == a, (p+d)-p == d are evaluated by the
 workload on the real operators while the monitors stay attached."""
 from fractions import Fraction as F
 
+from .. import core
 from .. import gen
 from .. import refmodel as R
 from ..regime import TOL, pair_exact_pts, add_stays_integral, shape_ok
@@ -130,6 +131,8 @@ def install(ctx, repo, probes):
             if ka[2] == 24 or kb[2] == 24:
                 ctx.cls("24:00-operand")
     probes.wrap(TP, "__sub__", post, pre)
+    ctx.budget = core.Budget(repo.path)
+    ctx.target("pair/moved-by-truncated-year")
     ctx.target("borrow", "far", "across-year-1", "mixed-representation",
                "mixed-offset", "24:00-operand", "regime/exact",
                "addsub/zone-typed-duration",
@@ -163,6 +166,27 @@ def run_case(ctx, repo, case):
     try:
         if case["op"] == "pair":
             a, b = repo.tp(case["a"]), repo.tp(case["b"])
+            via = case.get("via_truncated")
+            if via:
+                # a is first used (compared, subtracted, looked at), then
+                # moved to another year by adding a truncated point that
+                # names a year of the decade / century, and turned back into
+                # its representation: a value like any other
+                rep0 = R.tp_key(a)[0]
+                try:
+                    a - b
+                    a < b
+                    a.day_of_year
+                    t = repo.TimePoint(truncated=True,
+                                       truncated_property=via[0], year=via[1])
+                    moved, _ = ctx.budget.run(400000, lambda: t + a)
+                    a = {"cal": moved.to_calendar_date,
+                         "ord": moved.to_ordinal_date,
+                         "week": moved.to_week_date}[rep0]()
+                    b = repo.tp(case["a"])      # the point it came from
+                except (core.BudgetExceeded, ValueError):
+                    return
+                ctx.cls("pair/moved-by-truncated-year")
             exact = pair_exact_pts(a, b)
             try:
                 d1 = a - b
@@ -216,12 +240,32 @@ def run_case(ctx, repo, case):
         repo.set_mode("gregorian")
 
 
+def moved_cases():
+    for rep in gen.REPS:
+        for y in (2015, 2019, 2020):
+            for prop, k in (("year_of_decade", 9), ("year_of_century", 23),
+                            ("year_of_decade", 0), ("year_of_century", 99)):
+                rd = R.days_before_year("gregorian", y) + 62
+                a = gen.date_kwargs("gregorian", rep, rd)
+                a.update({"hour_of_day": 6, "minute_of_hour": 30,
+                          "second_of_minute": 0})
+                a.update(gen.zone_kwargs((0, 0)))
+                b = dict(a, hour_of_day=1)
+                yield {"op": "pair", "mode": "gregorian", "a": a, "b": b,
+                       "via_truncated": [prop, k]}
+
+
 DELTAS = (0, 1, -1, 59, 60, -61, 3599, 3600, -3601, 86399, 86400, -86401,
           43200, -7200)
 
 
 def workload(ctx, repo):
     rng = ctx.rng
+    if ctx.worker == 0:
+        for case in moved_cases():
+            ctx.case = case
+            ctx.ev("cases.moved-by-truncated-year")
+            run_case(ctx, repo, case)
     for case in REGRESSION_CASES:
         ctx.case = case
         run_case(ctx, repo, case)
